@@ -341,8 +341,11 @@ fn history_after_recovery(tree: &surrealkv::Tree, model: &Model, p: u64) -> Opti
 		norm(&mut got);
 		if got != want {
 			let show = |v: &Vec<E>| v.iter().map(|e| format!("{}@{}{}", hex(&e.0), e.1 - ip::SIM_EPOCH_NS.min(e.1), if e.2 { "(tomb)" } else { "" })).collect::<Vec<_>>().join(", ");
+			// every entry returned is right, some are missing: the silent form of an index
+			// whose multi-page update was interrupted (own class so that F9 can name it)
+			let lost_only = got.len() < want.len() && got.iter().all(|e| want.contains(e));
 			return Some(Violation::new(
-				"history_mismatch",
+				if lost_only { "history_entries_lost" } else { "history_mismatch" },
 				format!("after recovery to commit prefix {} the {} history is [{}] but that prefix's history is [{}]", p, if rev { "backward" } else { "forward" }, show(&got), show(&want)),
 			));
 		}
@@ -383,15 +386,18 @@ pub fn index_torn_by_power_loss(opts: &StoreOpts, power_loss: bool, v: &Violatio
 /// version index - the operation before it is a page write of the index file (page-sized,
 /// page-aligned: only the B+tree writes like that) and so is the one after it - and the
 /// failure comes out of the B+tree code. (A root or leaf split writes several pages and the
-/// header; a crash between them leaves a header that points at a page not written yet.)
+/// header; a crash between them leaves a header that points at a page not written yet, or -
+/// silently - an old root that no longer reaches the half moved to the new sibling: history
+/// then returns only correct entries but not all of them, class `history_entries_lost`.)
 pub fn index_update_interrupted(opts: &StoreOpts, ops: &[Op], n: usize, v: &Violation) -> bool {
 	let page_write = |o: Option<&Op>| matches!(o, Some(Op::Write { off, data, .. }) if off % 4096 == 0 && data.len() == 4096);
 	opts.versioned_index
 		&& n >= 1
 		&& page_write(ops.get(n - 1))
 		&& (page_write(ops.get(n)) || matches!(ops.get(n), Some(Op::Fsync { .. })))
-		&& matches!(v.class.as_str(), "panic" | "open_failed" | "read_error" | "reopen_failed" | "recover_failed")
-		&& (v.detail.contains("B+ tree error") || v.detail.contains("src/bplustree/") || (v.detail.contains("out of range for slice of length 0") && v.detail.contains("/repo/src/lib.rs:")))
+		&& (v.class == "history_entries_lost"
+			|| (matches!(v.class.as_str(), "panic" | "open_failed" | "read_error" | "reopen_failed" | "recover_failed")
+				&& (v.detail.contains("B+ tree error") || v.detail.contains("src/bplustree/") || (v.detail.contains("out of range for slice of length 0") && v.detail.contains("/repo/src/lib.rs:")))))
 }
 
 /// C07 legs on a successfully recovered store: commit to existing keys must be newest
